@@ -209,6 +209,9 @@ def judge(tokens, out, want, ra=False):
     """Oracles on the implementation's observations (independent of the model).  ra: the schedule
     contains loads that return older stores (release/acquire executions): real-time freshness is
     not promised there, everything else is."""
+    if out.startswith("STUCK"):
+        return ["the schedule could not be completed: the daemon's writer (starting over the segment) or a client (attaching, or inside a call) "
+                "did not reach its next access within the engine's time-out - a call that does not return"] if want in ("C18", "C04") else []
     obs = parse_obs(out)
     bad = []
     completed = 0          # publications completed so far
@@ -529,7 +532,9 @@ def run_property(pid, res, proofs_ok, proofs_why, extra_part=None):
                          "single-writer release/acquire machine of Shm/Machine.v as the model of the Rust/C11 memory model for this protocol; plain record accesses treated as relaxed per 8-byte cell"]
     # release/acquire executions on the real reader: the engine's simulated memory hands the loads of
     # the real snapshot() the older stores the machine allows
-    ra = clean_ra(cfg, [gen_ra(rng) for _ in range(n // 5)])
+    stuck = sum(1 for i in impl if i.startswith("STUCK"))
+    res.extra["schedules_that_got_stuck"] = stuck
+    ra = clean_ra(cfg, [gen_ra(rng) for _ in range(n // 5 if stuck < 5 else 3)])     # (each stuck schedule costs a time-out)
     ra_lines = [line_of(cfg, s) for s in ra]
     ra_impl = c.run_lines(binary, ra_lines, timeout=1800)
     ra_model = c.run_model(ra_lines, timeout=1800)
